@@ -287,8 +287,9 @@ def record(job, cls, method, dim):
 
     def harness():
         del calls[:]
+        # steps 3/8, 3/4, 3/2: no product of two generated steps is itself a generated step
         with tr.traced(), sn.abstract_division(products=True), cm.quiet():
-            gen = nd.MinStepGenerator(base_step=0.25, step_ratio=2.0, num_steps=3, step_nom=1.0)
+            gen = nd.MinStepGenerator(base_step=0.375, step_ratio=2.0, num_steps=3, step_nom=1.0)
             kw = dict(step=gen, method=method, full_output=True)
             if cls == 'Derivative':
                 kw.update(n=1, order=2)
@@ -410,7 +411,7 @@ def replay(cex):
             cv = rng.uniform(-1, 1, size=dim)
             f = lambda x: 0.3 + cv @ x + 0.5 * x @ Q @ x  # noqa
             x_in = xv
-        gen = nd.MinStepGenerator(base_step=0.25, step_ratio=2.0, num_steps=3, step_nom=1.0)
+        gen = nd.MinStepGenerator(base_step=0.375, step_ratio=2.0, num_steps=3, step_nom=1.0)
         kw = dict(step=gen, method=method, full_output=True)
         if cls == 'Derivative':
             kw.update(n=1, order=2)
